@@ -92,7 +92,7 @@ func (cl *Clause) LabelString() string {
 	return "[" + strings.Join(cl.Labels, ",") + "]"
 }
 
-var clauseKw = regexp.MustCompile(`^(requires|ensures|invariant|modifies|alias|safety|noOverread|ghostset|ghost|loop|trusted|inline|decreases|assume|fresh|use|candidates|lockdiscipline|guarded|structural|forget)\b(\[[^\]]*\])?\s*(.*)$`)
+var clauseKw = regexp.MustCompile(`^(requires|ensures|invariant|modifies|alias|safety|noOverread|ghostset|ghost|loop|trusted|inline|decreases|assume|fresh|use|candidates|lockdiscipline|guarded|shared|structural|forget)\b(\[[^\]]*\])?\s*(.*)$`)
 
 func (p *Program) parseContractText(pkg, file, text string) error {
 	lines := strings.Split(text, "\n")
@@ -113,7 +113,7 @@ func (p *Program) parseContractText(pkg, file, text string) error {
 				return fmt.Errorf("%s:%d: %v in %q", file, cl.Line, err, cl.Text)
 			}
 			cl.Expr = e
-		case "guarded":
+		case "guarded", "shared":
 			for _, part := range splitTop(cl.Text, ',') {
 				cl.Names = append(cl.Names, strings.TrimSpace(part))
 			}
